@@ -3,10 +3,13 @@ package drv
 import (
 	"bytes"
 	"crypto/sha1"
+	"encoding/binary"
 	"encoding/json"
 	"fmt"
+	"math"
 	"net"
 	"os"
+	"regexp"
 	"runtime"
 	"strings"
 	"sync"
@@ -18,7 +21,6 @@ import (
 	"github.com/q191201771/lal/pkg/logic"
 	"github.com/q191201771/lal/pkg/rtmp"
 	"github.com/q191201771/lal/pkg/rtsp"
-	"github.com/q191201771/lal/pkg/sdp"
 	"github.com/q191201771/naza/pkg/nazalog"
 
 	"lalverif/proj"
@@ -40,6 +42,7 @@ import (
 type stCfg struct {
 	Proto   string `json:"proto"` // rtmp | rtmpmw | flv | wsflv | ts | wsts | rtsp | wsrtsp
 	Two     bool   `json:"two"`   // a second stream (another Group) under one logic.ServerManager
+	Tcp     bool   `json:"tcp"`   // consumers on real loopback TCP connections (stall_tcp.go); n = stalled consumers
 	N       int    `json:"n"`
 	BoundUs int64  `json:"boundUs"`
 }
@@ -49,6 +52,8 @@ type stStep struct {
 	C    string `json:"c"`
 	T    string `json:"t"`
 	N    int    `json:"n"` // body length of the published frame (0 = default pool)
+	K    string `json:"k"` // Cmd: ping | cs | opt
+	V    int    `json:"v"` // Cmd: the value the answer echoes (timestamp, transaction id, CSeq)
 }
 
 type stScenario struct {
@@ -67,28 +72,60 @@ type gWrite struct {
 }
 
 type gateConn struct {
-	mu       sync.Mutex
-	name     string
-	open     bool
-	waiting  *gWrite
-	wire     [][]byte
-	wireEl   []int // queue element each write belongs to
-	curEl    int
-	everDl   bool
-	last     time.Time // completion time of the last write
-	nseen    int       // writes already reported
-	closed   bool
-	closedCh chan struct{}
-	dl       time.Time
+	mu          sync.Mutex
+	name        string
+	open        bool
+	waiting     *gWrite
+	in          []byte // sent by the consumer, not yet read by the session
+	rcond       *sync.Cond
+	readWaiting bool
+	wire        [][]byte
+	wireEl      []int // queue element each write belongs to
+	curEl       int
+	everDl      bool
+	last        time.Time // completion time of the last write
+	nseen       int       // writes already reported
+	closed      bool
+	closedCh    chan struct{}
+	dl          time.Time
 }
 
 func newGateConn(name string) *gateConn {
-	return &gateConn{name: name, open: true, closedCh: make(chan struct{})}
+	c := &gateConn{name: name, open: true, closedCh: make(chan struct{})}
+	c.rcond = sync.NewCond(&c.mu)
+	return c
 }
 
+// Read hands the session's read loop what the consumer has sent (Feed); it waits while there is nothing.
 func (c *gateConn) Read(b []byte) (int, error) {
-	<-c.closedCh
-	return 0, net.ErrClosed
+	c.mu.Lock()
+	defer c.mu.Unlock()
+	for len(c.in) == 0 && !c.closed {
+		c.readWaiting = true
+		c.rcond.Wait()
+	}
+	c.readWaiting = false
+	if len(c.in) == 0 {
+		return 0, net.ErrClosed
+	}
+	n := copy(b, c.in)
+	c.in = c.in[n:]
+	return n, nil
+}
+
+// Feed: the consumer sends bytes.
+func (c *gateConn) Feed(b []byte) {
+	c.mu.Lock()
+	c.in = append(c.in, b...)
+	c.mu.Unlock()
+	c.rcond.Broadcast()
+}
+
+// readerIdle: the read loop has taken everything that was sent and waits for more (or the connection is closed).
+func (c *gateConn) readerIdle() bool {
+	c.mu.Lock()
+	defer c.mu.Unlock()
+	return c.closed || (len(c.in) == 0 && c.readWaiting)
 }
 
 func (c *gateConn) Write(b []byte) (int, error) {
@@ -163,6 +200,7 @@ func (c *gateConn) Close() error {
 	w := c.waiting
 	close(c.closedCh)
 	c.mu.Unlock()
+	c.rcond.Broadcast()
 	if w != nil {
 		select {
 		case w.rel <- net.ErrClosed:
@@ -182,6 +220,7 @@ func (c *gateConn) LocalAddr() net.Addr               { return memAddr("local") 
 func (c *gateConn) RemoteAddr() net.Addr              { return memAddr("10.0.0.2:" + c.name) }
 func (c *gateConn) SetDeadline(t time.Time) error     { return nil }
 func (c *gateConn) SetReadDeadline(t time.Time) error { return nil }
+
 // SetWriteDeadline: naza's connection arms the deadline once per queue element, before the write (Write)
 // or writes (Writev, one per buffer) of that element: the call marks the element boundaries.
 func (c *gateConn) SetWriteDeadline(t time.Time) error {
@@ -205,6 +244,7 @@ type gState struct {
 	writersQuiet bool
 	pubBlocked   bool // the goroutine running the watched call into lal is parked on a channel / lock
 	pubSeen      bool
+	rdBlocked    bool // a session's read loop is parked on a channel / lock (not waiting for input)
 }
 
 var stackBuf = make([]byte, 256<<10) // only the driver's main goroutine looks at goroutine states
@@ -238,6 +278,13 @@ func goroutineStates() gState {
 				}
 			} else if !strings.Contains(blk, "connection.(*connection).runWriteLoop") || !strings.HasPrefix(state, "select") {
 				st.writersQuiet = false
+			}
+		}
+		if (strings.Contains(blk, "rtmp.(*ServerSession).RunLoop") || strings.Contains(blk, "rtsp.(*ServerCommandSession).RunLoop")) &&
+			!strings.Contains(blk, "drv.(*gateConn).Read") {
+			if strings.HasPrefix(state, "chan send") || strings.HasPrefix(state, "chan receive") ||
+				strings.HasPrefix(state, "select") || strings.HasPrefix(state, "semacquire") {
+				st.rdBlocked = true
 			}
 		}
 		if strings.Contains(blk, "lalverif/drv.watchedCall") {
@@ -360,6 +407,65 @@ func interleaved(b []byte) bool {
 	return len(b) >= 4 && b[0] == '$' && len(b) == 4+(int(b[2])<<8|int(b[3]))
 }
 
+// Identities of the replies a session writes to its own consumer (the echoed value makes a reply
+// recognisable by content): ping response 100000 + timestamp, _result 200000 + transaction id, RTSP
+// response 300000 + CSeq.
+const stReplyBase = 100000
+
+// rtmpUnitId: media messages carry their message id, signalling replies the value they echo.
+func rtmpUnitId(typ int, payload []byte, ts uint32) int {
+	switch typ {
+	case 4: // user control: event type(2) data
+		if len(payload) == 6 && payload[0] == 0 && payload[1] == 7 {
+			return stReplyBase + int(uint32(payload[2])<<24|uint32(payload[3])<<16|uint32(payload[4])<<8|uint32(payload[5]))%100000
+		}
+		return 0
+	case 20: // AMF0 command: string name, number transaction id
+		if len(payload) >= 3 && payload[0] == 2 {
+			n := int(payload[1])<<8 | int(payload[2])
+			if len(payload) >= 3+n+9 && string(payload[3:3+n]) == "_result" && payload[3+n] == 0 {
+				f := math.Float64frombits(binary.BigEndian.Uint64(payload[4+n:]))
+				if f >= 0 && f < 100000 {
+					return 2*stReplyBase + int(f)
+				}
+			}
+		}
+		return 0
+	case 8, 9, 18:
+		id, _ := IdentifyMsg(typ, payload, ts)
+		return id
+	}
+	return 0
+}
+
+// rtspResponse parses one RTSP response at the start of b (status line, headers, Content-Length body) and
+// returns its length (0 if b does not start with a complete response) and 300000 + CSeq.
+func rtspResponse(b []byte) (n int, id int) {
+	if !bytes.HasPrefix(b, []byte("RTSP/1.0 ")) {
+		return 0, 0
+	}
+	k := bytes.Index(b, []byte("\r\n\r\n"))
+	if k < 0 {
+		return 0, 0
+	}
+	clen, cseq := 0, 0
+	for _, l := range strings.Split(string(b[:k]), "\r\n") {
+		if i := strings.Index(l, ":"); i > 0 {
+			v := strings.TrimSpace(l[i+1:])
+			switch strings.ToLower(l[:i]) {
+			case "content-length":
+				fmt.Sscanf(v, "%d", &clen)
+			case "cseq":
+				fmt.Sscanf(v, "%d", &cseq)
+			}
+		}
+	}
+	if k+4+clen > len(b) {
+		return 0, 0
+	}
+	return k + 4 + clen, 3*stReplyBase + cseq%100000
+}
+
 func isWsProto(proto string) bool { return proto == "wsflv" || proto == "wsts" || proto == "wsrtsp" }
 
 func tsAligned(b []byte) bool {
@@ -385,10 +491,14 @@ func classifyInner(proto string, b []byte) stPart {
 	}
 	switch proto {
 	case "rtmp", "rtmpmw":
+		if len(b) == 3073 && b[0] == 3 {
+			p.K = "hs" // S0 S1 S2
+			return p
+		}
 		ms, inc := proj.ReadRtmpMessages(b, 4096)
 		if !inc && len(ms) >= 1 {
 			p.K = "msg"
-			p.Id, _ = IdentifyMsg(ms[0].Type, ms[0].Payload, ms[0].Ts)
+			p.Id = rtmpUnitId(ms[0].Type, ms[0].Payload, ms[0].Ts)
 		}
 	case "flv", "wsflv":
 		if bytes.Equal(b, []byte{'F', 'L', 'V', 1, 5, 0, 0, 0, 9, 0, 0, 0, 0}) {
@@ -417,6 +527,9 @@ func classifyInner(proto string, b []byte) stPart {
 		if interleaved(b) {
 			p.K = "rtp"
 			p.Id = posCodeAny(b[4:])
+		} else if n, id := rtspResponse(b); n == len(b) {
+			p.K = "rtspr"
+			p.Id = id
 		}
 	}
 	return p
@@ -478,12 +591,19 @@ func projectStream(proto string, all []byte, sent map[int]*stSent) (ids []int, l
 		}
 	}
 	if proto == "rtmp" || proto == "rtmpmw" {
+		if len(all) >= 3073 && all[0] == 3 {
+			all = all[3073:] // S0 S1 S2 of a session that went through the handshake
+		}
 		ms, inc := proj.ReadRtmpMessages(all, 4096)
 		if inc {
 			left = 1
 		}
 		for _, m := range ms {
-			checkMsg(m.Type, m.Ts, m.Payload)
+			if m.Type == 8 || m.Type == 9 || m.Type == 18 {
+				checkMsg(m.Type, m.Ts, m.Payload)
+			} else if id := rtmpUnitId(m.Type, m.Payload, m.Ts); id != 0 {
+				ids = append(ids, id) // a signalling reply, recognised by the value it echoes
+			}
 		}
 		return
 	}
@@ -508,6 +628,11 @@ func projectStream(proto string, all []byte, sent map[int]*stSent) (ids []int, l
 		}
 		// RFC 2326 10.12: '$' channel length(2) packet
 		for pos := 0; pos < len(b); {
+			if n, id := rtspResponse(b[pos:]); n > 0 { // a response to a request of the consumer
+				ids = append(ids, id)
+				pos += n
+				continue
+			}
 			if b[pos] != '$' {
 				bad = append(bad, "interleaved_frame_lost")
 				left += len(b) - pos
@@ -631,6 +756,9 @@ type stCons struct {
 	ts   *httpts.SubSession
 	rsub *rtsp.SubSession
 	rcmd *rtsp.ServerCommandSession
+	done chan struct{} // closed when the session's read loop has ended and its departure has been reported
+	enc  *proj.RsEnc   // the consumer's own RTMP chunk encoder
+	ncmd int
 }
 
 // null hands the session a unit without media (no bytes, or the protocol's empty frame) through its own
@@ -647,6 +775,89 @@ func (c *stCons) null() {
 		_ = c.rsub.WriteInterleavedPacket([]byte{}, 0)
 	}
 }
+
+// stWire is the observer of the sessions that run their real read loop (rtmp.Server's per-connection routine,
+// ServerCommandSession.RunLoop): it does what logic.ServerManager does with the callbacks, on the bare Group
+// or through the ServerManager of the scenario.
+type stWire struct {
+	g      *logic.Group
+	sm     *logic.ServerManager
+	cur    *stCons // the consumer that is joining
+	joined chan error
+}
+
+func (w *stWire) OnRtmpConnect(session *rtmp.ServerSession, opa rtmp.ObjectPairArray) {
+	if w.sm != nil {
+		w.sm.OnRtmpConnect(session, opa)
+	}
+}
+func (w *stWire) OnNewRtmpPubSession(session *rtmp.ServerSession) error {
+	return fmt.Errorf("the stall driver publishes through the group")
+}
+func (w *stWire) OnDelRtmpPubSession(session *rtmp.ServerSession) {}
+func (w *stWire) OnNewRtmpSubSession(session *rtmp.ServerSession) (err error) {
+	w.cur.rs = session
+	if w.sm != nil {
+		err = w.sm.OnNewRtmpSubSession(session)
+	} else {
+		w.g.AddRtmpSubSession(session)
+	}
+	w.joined <- err
+	return err
+}
+func (w *stWire) OnDelRtmpSubSession(session *rtmp.ServerSession) {
+	if w.sm != nil {
+		w.sm.OnDelRtmpSubSession(session)
+	} else {
+		w.g.DelRtmpSubSession(session)
+	}
+}
+func (w *stWire) OnNewRtspPubSession(session *rtsp.PubSession) error {
+	return fmt.Errorf("the stall driver publishes through the group")
+}
+func (w *stWire) OnNewRtspSubSessionDescribe(session *rtsp.SubSession) (ok bool, sdp []byte) {
+	w.cur.rsub = session
+	if w.sm != nil {
+		return w.sm.OnNewRtspSubSessionDescribe(session)
+	}
+	return w.g.HandleNewRtspSubSessionDescribe(session)
+}
+func (w *stWire) OnNewRtspSubSessionPlay(session *rtsp.SubSession) (err error) {
+	if w.sm != nil {
+		err = w.sm.OnNewRtspSubSessionPlay(session)
+	} else {
+		w.g.HandleNewRtspSubSessionPlay(session)
+	}
+	w.joined <- err
+	return err
+}
+
+// AMF0 values and WebSocket client frames of the consumer's side
+func stAmfStr(v string) []byte { return append([]byte{2, byte(len(v) >> 8), byte(len(v))}, v...) }
+func stAmfNum(f float64) []byte {
+	b := make([]byte, 9)
+	binary.BigEndian.PutUint64(b[1:], math.Float64bits(f))
+	return b
+}
+
+// stWsClientFrame: one masked text frame (RFC 6455 5.3; mask key zero leaves the payload as it is).
+func stWsClientFrame(p []byte) []byte {
+	b := []byte{0x81}
+	switch {
+	case len(p) < 126:
+		b = append(b, 0x80|byte(len(p)))
+	default:
+		b = append(b, 0x80|126, byte(len(p)>>8), byte(len(p)))
+	}
+	b = append(b, 0, 0, 0, 0)
+	return append(b, p...)
+}
+
+var stControlRe = regexp.MustCompile(`a=control:(streamid=\d+)`)
+
+// errJoinLost: the session closed the connection while the consumer was setting it up, because an answer could
+// not be queued
+var errJoinLost = fmt.Errorf("the session dropped an answer and closed the connection during setup")
 
 type rtspNullObserver struct{}
 
@@ -678,7 +889,16 @@ func stallDriver(env *Env) error {
 		for attempt := 0; attempt < 3; attempt++ {
 			var slow, blocked bool
 			var err error
-			evs, slow, blocked, err = runStallScenario(&sc, env.Seed, nblocked >= 8)
+			if sc.Cfg.Tcp {
+				evs, err = runTcpScenario(&sc, env.Seed)
+				for _, e := range evs {
+					if us, ok := e["callUs"].(int64); ok && sc.Cfg.BoundUs > 0 && us > sc.Cfg.BoundUs {
+						slow = true
+					}
+				}
+			} else {
+				evs, slow, blocked, err = runStallScenario(&sc, env.Seed, nblocked >= 8)
+			}
 			if err != nil {
 				return fmt.Errorf("scenario %d: %v", sc.Sc, err)
 			}
@@ -754,6 +974,19 @@ func runStallScenario(sc *stScenario, seed int64, skipBlocked bool) (evs []M, sl
 		"two": sc.Cfg.Two, "n": sc.Cfg.N, "boundUs": sc.Cfg.BoundUs})
 
 	delSub := func(c *stCons, stream string) {
+		if c.done != nil {
+			// a session that runs its own read loop: the consumer closes the connection, the loop ends and the
+			// per-connection routine reports the departure
+			c.conn.Close()
+			select {
+			case <-c.done:
+			case <-time.After(10 * time.Second):
+				if err == nil {
+					err = fmt.Errorf("the read loop of %s did not end after its connection was closed", c.name)
+				}
+			}
+			return
+		}
 		switch {
 		case c.rs != nil:
 			if sm != nil {
@@ -872,7 +1105,7 @@ func runStallScenario(sc *stScenario, seed int64, skipBlocked bool) (evs []M, sl
 	prime := func(only string) (M, error) {
 		pr := M{"s1": []stPart{}, "s2": []stPart{}}
 		nstep++
-		if proto == "wsrtsp" || (sc.Sc+nstep)%4 == 0 {
+		if (sc.Sc+nstep)%4 == 0 {
 			return pr, nil
 		}
 		did := map[string]bool{}
@@ -1016,21 +1249,80 @@ func runStallScenario(sc *stScenario, seed int64, skipBlocked bool) (evs []M, sl
 			}
 		}
 	}
+	wire := &stWire{g: g, sm: sm, joined: make(chan error, 4)}
+	rtmpSrv := rtmp.NewServer("", wire)
+	// settle waits until the read loops of the given consumers have taken everything that was sent to them and
+	// wait for more (or have ended), and the write loops are quiescent; blocked = a read loop is parked for good
+	// while it answers (same criterion as for a watched call)
+	settle := func(cs ...*stCons) (blocked bool, e error) {
+		dead := time.Now().Add(20 * time.Second)
+		for k := 0; ; k++ {
+			idle := true
+			for _, c := range cs {
+				if !c.conn.readerIdle() {
+					idle = false
+				}
+			}
+			if idle {
+				return false, quiesce()
+			}
+			if k > 40 && k%10 == 0 {
+				if st := goroutineStates(); st.rdBlocked && st.writersQuiet {
+					time.Sleep(200 * time.Microsecond)
+					if st2 := goroutineStates(); st2.rdBlocked && st2.writersQuiet {
+						return true, nil
+					}
+				}
+			}
+			if time.Now().After(dead) {
+				return false, fmt.Errorf("a session read loop neither finished a request nor parked")
+			}
+			if k < 20 {
+				runtime.Gosched()
+			} else {
+				time.Sleep(20 * time.Microsecond)
+			}
+		}
+	}
+	waitJoined := func() error {
+		select {
+		case e := <-wire.joined:
+			return e
+		case <-time.After(10 * time.Second):
+			return fmt.Errorf("the session never reached play")
+		}
+	}
+	rtspReq := func(text string) []byte {
+		if ws {
+			return stWsClientFrame([]byte(text))
+		}
+		return []byte(text)
+	}
 	join := func(n, stream string, size int) error {
 		c := &stCons{name: n, conn: newGateConn(n)}
+		wire.cur = c
 		switch proto {
 		case "rtmp", "rtmpmw":
-			c.rs = rtmp.NewServerSession(nullObserver{}, c.conn)
+			// the server's per-connection routine on the gated connection: handshake, connect, createStream and
+			// play are sent by the independent client-side encoder, the session's own read loop answers them
+			cons[n] = c
+			c.done = make(chan struct{})
+			go func() { rtmpSrv.VerifHandleTcpConnect(c.conn); close(c.done) }()
+			c.enc = proj.NewRsEnc(seed)
 			old := rtmp.VerifSetWChanSize(size)
-			if sm != nil {
-				c.rs.VerifSetIdentity("live", stream, "", false)
+			for _, m := range []proj.RsMsg{{M: "c0c1", A: "simple"}, {M: "c2"}, {M: "cmd", A: "connect", S: "ok"},
+				{M: "cmd", A: "createStream", S: "ok"}, {M: "cmd", A: "play", S: "ok"}} {
+				b, _ := c.enc.Bytes(m, stream)
+				c.conn.Feed(b)
+				if _, e := settle(c); e != nil {
+					rtmp.VerifSetWChanSize(old)
+					return e
+				}
 			}
-			c.rs.VerifStartPlay()
+			e := waitJoined()
 			rtmp.VerifSetWChanSize(old)
-			if sm != nil {
-				_ = sm.OnNewRtmpSubSession(c.rs)
-			} else {
-				g.AddRtmpSubSession(c.rs)
+			if e != nil {
+				return e
 			}
 		case "flv", "wsflv":
 			u, _ := base.ParseUrl("http://h/live/"+stream+".flv", 80)
@@ -1051,38 +1343,62 @@ func runStallScenario(sc *stScenario, seed int64, skipBlocked bool) (evs []M, sl
 				g.AddHttptsSubSession(c.ts)
 			}
 		case "rtsp", "wsrtsp":
-			// the state a subscriber is in after DESCRIBE, SETUP (interleaved: RTP/AVP/TCP) and PLAY on its
-			// command connection
+			// the command loop of a real ServerCommandSession on the gated connection: DESCRIBE, SETUP (interleaved:
+			// RTP/AVP/TCP) per track and PLAY are sent by the consumer, the session answers them on the same connection
 			old, ok := stSetRtspWChan(size)
 			if !ok {
 				return fmt.Errorf("rtsp hook VerifSetServerCommandSessionWriteChanSize is not in this tree")
 			}
-			u, _ := base.ParseUrl("rtsp://h/live/"+stream, 554)
-			c.rcmd = rtsp.NewServerCommandSession(rtspNullObserver{}, c.conn, rtsp.ServerAuthConfig{}, ws, "dGhlIHNhbXBsZSBub25jZQ==")
+			c.rcmd = rtsp.NewServerCommandSession(wire, c.conn, rtsp.ServerAuthConfig{}, ws, "dGhlIHNhbXBsZSBub25jZQ==")
 			stSetRtspWChan(old)
-			c.rsub = rtsp.NewSubSession(u, c.rcmd)
-			var raw []byte
-			if sm != nil {
-				_, raw = sm.OnNewRtspSubSessionDescribe(c.rsub)
-			} else {
-				_, raw = g.HandleNewRtspSubSessionDescribe(c.rsub)
+			cons[n] = c
+			c.done = make(chan struct{})
+			go func() {
+				_ = c.rcmd.RunLoop()
+				if c.rsub != nil { // as rtsp.Server does when the command loop has ended
+					if sm != nil {
+						sm.OnDelRtspSubSession(c.rsub)
+					} else {
+						g.DelRtspSubSession(c.rsub)
+					}
+					_ = c.rsub.Dispose()
+				}
+				close(c.done)
+			}()
+			uri := "rtsp://h/live/" + stream
+			c.ncmd = 1
+			c.conn.Feed(rtspReq(fmt.Sprintf("DESCRIBE %s RTSP/1.0\r\nCSeq: %d\r\nAccept: application/sdp\r\n\r\n", uri, c.ncmd)))
+			if _, e := settle(c); e != nil {
+				return e
 			}
-			ctx, e := sdp.ParseSdp2LogicContext(raw)
-			if e != nil {
-				return fmt.Errorf("no usable sdp for the rtsp subscriber: %v", e)
+			c.conn.mu.Lock()
+			got := bytes.Join(c.conn.wire, nil)
+			c.conn.mu.Unlock()
+			ctrls := stControlRe.FindAllSubmatch(got, -1)
+			if len(ctrls) == 0 {
+				if c.conn.isClosed() {
+					return errJoinLost
+				}
+				return fmt.Errorf("no sdp in the answer to DESCRIBE")
 			}
-			c.rsub.InitWithSdp(ctx)
-			if ctx.HasVideoAControl() {
-				_ = c.rsub.SetupWithChannel(ctx.MakeVideoSetupUri(u.Url), 0, 1)
+			for i, m := range ctrls {
+				c.ncmd++
+				c.conn.Feed(rtspReq(fmt.Sprintf("SETUP %s/%s RTSP/1.0\r\nCSeq: %d\r\nTransport: RTP/AVP/TCP;unicast;interleaved=%d-%d\r\n\r\n",
+					uri, m[1], c.ncmd, 2*i, 2*i+1)))
+				if _, e := settle(c); e != nil {
+					return e
+				}
 			}
-			if ctx.HasAudioAControl() {
-				_ = c.rsub.SetupWithChannel(ctx.MakeAudioSetupUri(u.Url), 2, 3)
+			c.ncmd++
+			c.conn.Feed(rtspReq(fmt.Sprintf("PLAY %s RTSP/1.0\r\nCSeq: %d\r\nRange: npt=0.000-\r\n\r\n", uri, c.ncmd)))
+			if _, e := settle(c); e != nil {
+				return e
 			}
-			c.rsub.Stage.Store(rtsp.SubSessionStageReadPlay)
-			if sm != nil {
-				_ = sm.OnNewRtspSubSessionPlay(c.rsub)
-			} else {
-				g.HandleNewRtspSubSessionPlay(c.rsub)
+			if c.conn.isClosed() {
+				return errJoinLost
+			}
+			if e := waitJoined(); e != nil {
+				return e
 			}
 		default:
 			return fmt.Errorf("unknown protocol %q", proto)
@@ -1153,6 +1469,12 @@ func runStallScenario(sc *stScenario, seed int64, skipBlocked bool) (evs []M, sl
 					size = 1024
 				}
 				if err = join(n, streamA, size); err != nil {
+					if err == errJoinLost {
+						// an answer of the session to its own consumer could not be queued during setup and the
+						// session hung up: an observation, not a failure of the driver
+						err = quiesce()
+						snap(M{"ev": "Join", "lost": n})
+					}
 					return
 				}
 			}
@@ -1178,7 +1500,59 @@ func runStallScenario(sc *stScenario, seed int64, skipBlocked bool) (evs []M, sl
 			if err = quiesce(); err != nil {
 				return
 			}
-			snap(M{"ev": "Join"})
+			snap(M{"ev": "Join", "lost": ""})
+		case "Cmd":
+			// the consumer sends a request while data is queued for it; the healthy consumer sends the same request
+			// and shows what the answer looks like when nothing is queued
+			c, h := cons[st.C], cons["h"]
+			if c == nil || h == nil || c.done == nil || c.conn.isClosed() || h.conn.isClosed() {
+				continue
+			}
+			var req func(x *stCons) []byte
+			switch {
+			case st.K == "ping" && c.enc != nil:
+				req = func(x *stCons) []byte {
+					b, _ := x.enc.Split(2, 4, 0, 0, []byte{0, 6, byte(st.V >> 24), byte(st.V >> 16), byte(st.V >> 8), byte(st.V)})
+					return b
+				}
+			case st.K == "cs" && c.enc != nil:
+				req = func(x *stCons) []byte {
+					p := append(append(stAmfStr("createStream"), stAmfNum(float64(st.V))...), 5)
+					b, _ := x.enc.Split(3, 20, 0, 0, p)
+					return b
+				}
+			case st.K == "opt" && c.rcmd != nil:
+				req = func(x *stCons) []byte {
+					return rtspReq(fmt.Sprintf("OPTIONS rtsp://h/live/%s RTSP/1.0\r\nCSeq: %d\r\n\r\n", streamA, st.V))
+				}
+			default:
+				continue
+			}
+			h.conn.Feed(req(h))
+			if _, e := settle(h); e != nil {
+				err = e
+				return
+			}
+			c.conn.Feed(req(c))
+			blocked, e := settle(c)
+			if e != nil {
+				err = e
+				return
+			}
+			if blocked {
+				for _, x := range cons {
+					x.conn.setOpen(true)
+				}
+				if _, e := settle(c); e != nil {
+					err = e
+					return
+				}
+				blockedSeen = true
+			}
+			snap(M{"ev": "Cmd", "c": st.C, "req": M{"k": st.K, "v": st.V}, "blocked": blocked})
+			if blocked {
+				return
+			}
 		case "Publish", "PublishB":
 			t := st.T
 			if t == "" {
